@@ -47,7 +47,8 @@ package keeper
 
 //@ family pools   key types.KeyFarmPool value types.FarmPool prefix global:types.FarmPoolKey
 //@ family ruleF   key types.KeyRewardRule value types.RewardRule prefix types.PrefixRewardRule
-//@ family farmers key types.KeyFarmInfo value types.FarmInfo prefix types.PrefixFarmInfo
+// (the first key component is a bech32 account address of this chain: fixed length, declared for the key-layout audit)
+//@ family farmers key types.KeyFarmInfo value types.FarmInfo prefix types.PrefixFarmInfo fixedlen 0
 //@ family active  key types.KeyActiveFarmPool value str prefix types.PrefixActiveFarmPool,global:types.ActiveFarmPoolKey
 //@ family poolSeq key types.KeyFarmPoolSeq value uint64
 //@ family escrowF key types.KeyEscrowInfo value types.EscrowInfo
